@@ -8,7 +8,8 @@ spec/C08/KeyFlow.tla   R-spec 2: the life of a key (export / parse through every
  MC   KeyCodecMC: lemmas over all 30 473 (curve, length profile) cases + emission of the cases;  KeyFlow: complete state graph,
       action properties (only the diagonal verifies, tampering is forever, parse succeeds iff the password matches ...).
  GEN  KeyFlowGen: behaviours of the two flows (exhaustive to a small depth, -simulate for long ones; menu "sweep" = the shape
-      Sign - flip one bit - Verify, whose bit position the harness sweeps over every bit of signature / message).
+      Sign - flip one bit - Verify, whose bit position the harness sweeps over every bit of signature / message; menu "pw" =
+      Export with a password - Parse for every password class of the spec x everything that may be offered to the container).
  EXEC this module: builds integers / picks pool keys with exactly the requested profile, runs SPSDK (library and the
       `nxpcrypto` command line) and the independent base (`cryptography` called directly with the standard parameters;
       pure-Python verification and key construction in lib/refpk.py) in both directions and LOGS facts.  It never compares
